@@ -231,4 +231,4 @@ func TestVerifReplay(t *testing.T) {
 
 
 if __name__ == '__main__':
-    main()
+    guarded_main('C06', main)
